@@ -24,7 +24,7 @@ def prop(pid, **kw):
 prop("C01", lean_props=["C01", "Tables"])
 # C04 speaks of hand-written AND generated types: the second stream drives the emitted `size()` / `encode` of every generated type
 # (genrun; the request set of C02), whose oracle compares the reported size with the bytes written under all four protocols
-prop("C04", lean_props=["C04", "Tables"], bins=["rt", "gentool"],
+prop("C04", lean_props=["C04", "Tables", "Templates"], bins=["rt", "gentool"],
      streams=[{"name": "C04"}, {"name": "C04gen", "bin": "genrun", "pygen": "requests_C02", "drop_hazard": True}])
 
 # tracks register their properties in their own files (bin/props_<track>.py: `def register(prop, TB_COMMON)`)
